@@ -21,6 +21,7 @@ package blobstore
 //@ func (*batchedStoreBlobAccess).flushLocked
 //@   props C09
 //@   ensures a-recorded-failure-stays-recorded: old(ba.flushError) != nil ==> ba.flushError != nil
+//@   loop 0 exhaustive
 //@   loop 0 invariant flushsteps(1) == 0 && flushsteps(2) == 0
 //@   at call FindMissing#1 ghostset flushsteps[1] = ite(r1 != nil, 1, 0)
 //@   at call Wait#1 ghostset flushsteps[2] = ite(r0 != nil, 1, 0)
